@@ -390,3 +390,13 @@ def c05_keyword_key(viol, inp, param):
     given = "".join(chr(c) for c in s)
     got = "".join(chr(c) for c in back)
     return via == "key" and given != given.lower() and got == given.lower() and text == got
+
+
+# ---- C13: substitution inside a longer string rewrites the AST string shared with inheriting scenarios ---------
+@classifier("c13_mixed_string_resolved_once_for_base_and_scenario")
+def c13_shared_ast(viol, inp, param):
+    if viol["aspect"] not in ("compiled-text-is-not-the-textual-replacement-from-the-innermost-scope", "program-and-its-textually-substituted-twin-compile-differently",
+                              "undefined-variable-not-reported"):
+        return False
+    d = json.loads(viol["detail"])
+    return d[-1] == 1
